@@ -71,6 +71,17 @@ impl Property for C04 {
                 Tok::Zom { lazy: false },
             ],
             paths: vec!["/home/nobody/.var/x.log".into(), "/var/x".into()],
+        },
+        // candidate paths longer than 64 KiB: offsets of captures do not fit sixteen bits
+        Case { expr: vec![Tok::Zom { lazy: false }], paths: vec!["a".repeat(65_536), "é".repeat(35_000)] },
+        Case { expr: vec![Tok::One, Tok::Zom { lazy: false }], paths: vec!["a".repeat(65_536)] },
+        Case {
+            expr: vec![Tok::lit("a"), Tok::Zom { lazy: false }, Tok::Sep, Tok::Zom { lazy: false }, Tok::lit("b")],
+            paths: vec![format!("{}/{}", "a".repeat(40_000), "b".repeat(40_000))],
+        },
+        Case {
+            expr: vec![Tok::Tree { lead: false, trail: true }, Tok::Zom { lazy: false }],
+            paths: vec![format!("{}x", "d/".repeat(33_000))],
         }]
     }
     fn shrink(&self, c: &Case) -> Vec<Case> {
